@@ -517,6 +517,7 @@ func (s *Serializer) Deserialize(src []byte, dst *ParsedJson) (*ParsedJson, erro
 	if err != nil {
 		return dst, err
 	}
+	defer sWG.Wait()
 
 	// Message size
 	if ss, err := binary.ReadUvarint(br); err != nil {
@@ -533,7 +534,6 @@ func (s *Serializer) Deserialize(src []byte, dst *ParsedJson) (*ParsedJson, erro
 	if err != nil {
 		return dst, err
 	}
-	defer sWG.Wait()
 
 	// Decompress tags
 	if tags, err := binary.ReadUvarint(br); err != nil {
